@@ -142,8 +142,88 @@ static void Handle(const json& c, vh::Report& r) {
   if ((r.cases % 9973) == 9) r.Sample(c);
 }
 
+// ------------------------------------------------------------------ recording (direction B): long random histories
+static json TLeaf(const char* id, const std::string& name) { return { {"id", id}, {"s", name}, {"n", 0}, {"ix", json::array()}, {"ch", json::array()} }; }
+static json TNode(const char* id, json ch) { return { {"id", id}, {"s", ""}, {"n", 0}, {"ix", json::array()}, {"ch", std::move(ch)} }; }
+struct MDef { json tree; std::string text; };
+static MDef MakeMDef(int k, const std::string& n, const std::string& m) {
+  const json N = TLeaf("GLOBAL", n), M = TLeaf("GLOBAL", m), a = TLeaf("LOCAL", "a");
+  switch (k) {
+  case 0: return { N, n };
+  case 1: return { TNode("UNION", { N, M }), n + "∪" + m };
+  case 2: return { TNode("SET_MINUS", { N, M }), n + "\\" + m };
+  case 3: { json t = TNode("BIGPR", { TLeaf("GLOBAL", "S1") }); t["ix"] = { 1 }; return { t, "Pr1(S1)" }; }
+  case 4: return { TNode("DECLARATIVE", { a, N, TNode("NOTIN", { a, M }) }), "D{a∈" + n + " | a∉" + m + "}" };
+  case 5: return { TNode("DEBOOL", { N }), "debool(" + n + ")" };
+  case 6: return { TNode("INTERSECTION", { N, M }), n + "∩" + m };
+  default: return { TNode("BOOLEAN", { N }), "ℬ(" + n + ")" };
+  }
+}
+static json ItemsOf(const RSModel& m) {
+  json items = json::array();
+  for (const auto u : m.List()) {
+    const auto& rs = m.GetRS(u); const auto& p = m.GetParse(u);
+    json it = { {"uid", u}, {"alias", rs.alias}, {"ok", p.status == semantic::ParsingStatus::VERIFIED}, {"keys", json::array()}, {"shows", false}, {"value", 0}, {"statement", false} };
+    if (semantic::IsBaseSet(rs.type)) if (const auto d = m.Values().SDataFor(u)) for (const auto& el : d->B()) it["keys"].push_back(el.E().Value());
+    if (m.Calculations().WasCalculated(u) && !semantic::IsBaseNotion(rs.type)) {
+      if (const auto d = m.Values().SDataFor(u); d.has_value()) { it["shows"] = true; it["value"] = rsconv::Canon(rsconv::ValueToJson(*d)); }
+      else if (const auto st = m.Values().StatementFor(u); st.has_value()) { it["shows"] = true; it["statement"] = *st; }
+    }
+    items.push_back(it);
+  }
+  return items;
+}
+static int Record(const vh::Args& args) {
+  const long traces = args.num("record", 5), steps = args.num("steps", 40);
+  std::mt19937 g(static_cast<unsigned>(args.num("seed", 1)));
+  std::ofstream out(args.get("trace")); vh::Report rep; long events = 0;
+  static const char* names[] = { "X1", "X1", "D1", "D2", "D3", "X2", "S1", "D4" };
+  for (long t = 0; t < traces; ++t) {
+    out << json{ {"e", "Reset"} }.dump() << std::endl; ++events;
+    auto m = std::make_unique<RSModel>(); EntityUID counter = 0;
+    auto emit = [&](json ev) { ev["items"] = ItemsOf(*m); out << ev.dump() << std::endl; ++events; };
+    auto emplace = [&](const char* kind, CstType type, const json& tree, const std::string& text) {
+      g_uids.clear(); g_uids.push_back(++counter); const auto got = m->Emplace(type, text);
+      emit({ {"e", "Emplace"}, {"k", kind}, {"def", tree}, {"fresh", got} }); };
+    const json noDef = { {"id", "NODEF"}, {"s", ""}, {"n", 0}, {"ix", json::array()}, {"ch", json::array()} };
+    emplace("base", CstType::base, noDef, "");
+    const EntityUID x1 = 1;
+    if (g() % 2) { const json dom = TNode("BOOLEAN", { TNode("DECART", { TLeaf("GLOBAL", "X1"), TLeaf("GLOBAL", "X1") }) }); emplace("structured", CstType::structured, dom, "ℬ(X1×X1)"); }
+    for (int i = 0; i < 2; ++i) { m->Values().AddBasicElement(x1, "e"); emit({ {"e", "AddBasicElement"}, {"u", x1} }); }
+    for (long st = 0; st < steps; ++st) {
+      std::vector<EntityUID> all, bases, structs, calc; for (const auto u : m->List()) { all.push_back(u); const auto ty = m->GetRS(u).type;
+        if (semantic::IsBaseSet(ty)) bases.push_back(u); else if (ty == CstType::structured) structs.push_back(u); else calc.push_back(u); }
+      auto pick = [&](const std::vector<EntityUID>& v) { return v[g() % v.size()]; };
+      // names: mostly constituents that exist and denote sets (so that most definitions type-check), sometimes any name of the pool
+      auto name = [&]() -> std::string { if (g() % 5 == 0) return names[g() % 8]; const auto u = pick(all); const auto ty = m->GetRS(u).type;
+        return (ty == CstType::axiom || ty == CstType::structured) ? std::string("X1") : m->GetRS(u).alias; };
+      const int w = static_cast<int>(g() % 100);
+      if (w < 16 && all.size() < 8) { const auto d = MakeMDef(static_cast<int>(g() % 8), name(), name()); emplace("term", CstType::term, d.tree, d.text); }
+      else if (w < 19 && all.size() < 8) emplace("base", CstType::base, noDef, "");
+      else if (w < 24 && all.size() < 8) { const auto n1 = name(), n2 = name(); emplace("axiom", CstType::axiom, TNode("EQUAL", { TLeaf("GLOBAL", n1), TLeaf("GLOBAL", n2) }), n1 + "=" + n2); }
+      else if (w < 30) { if (all.size() <= 1) { --st; continue; } auto u = pick(all); if (u == x1) { --st; continue; } (void)m->Erase(u); emit({ {"e", "Erase"}, {"u", u} }); }
+      else if (w < 44) { if (calc.empty()) { --st; continue; } const auto u = pick(calc); if (m->GetRS(u).type != CstType::term) { --st; continue; }
+        const auto d = MakeMDef(static_cast<int>(g() % 8), name(), name()); (void)m->SetExpressionFor(u, d.text); emit({ {"e", "SetExpression"}, {"u", u}, {"def", d.tree} }); }
+      else if (w < 52) { const auto u = pick(bases); size_t n = 0; if (const auto d = m->Values().SDataFor(u)) n = static_cast<size_t>(d->B().Cardinality()); if (n >= 3) { --st; continue; }
+        m->Values().AddBasicElement(u, "n"); emit({ {"e", "AddBasicElement"}, {"u", u} }); }
+      else if (w < 62) { const auto u = pick(bases); json ks = json::array(); for (int k = 1; k <= 3; ++k) if (g() % 2) ks.push_back(k);
+        m->Values().SetBasicText(u, TextOf(ks)); emit({ {"e", "SetBasicText"}, {"u", u}, {"ks", ks} }); }
+      else if (w < 70) { if (structs.empty()) { --st; continue; } const auto u = pick(structs); json data = json::array(); for (int a = 1; a <= 3; ++a) for (int b = 1; b <= 3; ++b) if (g() % 4 == 0) data.push_back({ a, b });
+        (void)m->Values().SetStructureData(u, PairsOf(data)); emit({ {"e", "SetStructureData"}, {"u", u}, {"data", data} }); }
+      else if (w < 74) { std::vector<EntityUID> bs = bases; bs.insert(bs.end(), structs.begin(), structs.end()); const auto u = pick(bs); m->Values().ResetDataFor(u); emit({ {"e", "ResetDataFor"}, {"u", u} }); }
+      else if (w < 90) { if (calc.empty()) { --st; continue; } const auto u = pick(calc); m->Calculations().Calculate(u); emit({ {"e", "Calculate"}, {"u", u} }); }
+      else { m->Calculations().RecalculateAll(); emit({ {"e", "RecalculateAll"} }); }
+    }
+    ++rep.cases;
+  }
+  rep.counters["events"] = events; rep.counters["traces"] = traces;
+  rep.Write(args.get("out"));
+  return 0;
+}
+
 int main(int argc, char** argv) {
   vh::Args args(argc, argv);
+  if (args.has("record")) { InstallHook(); return vh::RunRecorder(args.get("trace"), args.get("out"), [&]() { return Record(args); }, 240); }
   { std::stringstream ss(args.get("props")); std::string p; while (std::getline(ss, p, ',')) if (!p.empty()) g_props.insert(p); }
   InstallHook();
   vh::IsoOptions iso; iso.faultProperty = "C11"; iso.batch = 1000; iso.watchdogSeconds = 20;
